@@ -21,19 +21,19 @@ import (
 
 // Faults is a JSON-able, counter-hash driven fault model.
 type Faults struct {
-	LossPct   int `json:",omitempty"` // per packet
-	DupPct    int `json:",omitempty"`
-	MinLatUs  int `json:",omitempty"` // one-way latency range (microseconds)
-	MaxLatUs  int `json:",omitempty"`
-	RefusePct int `json:",omitempty"` // per dial
-	CutPct    int `json:",omitempty"` // per dial: cut one direction at a hash-chosen offset
+	LossPct     int `json:",omitempty"` // per packet
+	DupPct      int `json:",omitempty"`
+	MinLatUs    int `json:",omitempty"` // one-way latency range (microseconds)
+	MaxLatUs    int `json:",omitempty"`
+	RefusePct   int `json:",omitempty"` // per dial
+	CutPct      int `json:",omitempty"` // per dial: cut one direction at a hash-chosen offset
 	StreamLatUs int `json:",omitempty"`
 }
 
 type policy struct {
-	mu     sync.Mutex
-	f      Faults
-	active bool
+	mu         sync.Mutex
+	f          Faults
+	active     bool
 	quietLatUs int
 }
 
@@ -122,11 +122,11 @@ func (n *Node) Addr() string { return net.JoinHostPort(n.Conf.IP, fmt.Sprint(n.C
 
 // Cluster is the set of nodes on one network.
 type Cluster struct {
-	Net   *simnet.Network
-	Nodes []*Node
-	pol   *policy
-	Seed  uint64
-	Codec wire.Codec
+	Net    *simnet.Network
+	Nodes  []*Node
+	pol    *policy
+	Seed   uint64
+	Codec  wire.Codec
 	obs    *simnet.Endpoint
 	obsSeq int
 	mu     sync.Mutex
